@@ -1340,9 +1340,9 @@ class FrequencySpectrum(WaveSpectrum):
             else:
                 _dataset = _dataset.assign({_name: self.dataset[_name]})
 
-        interpolated_data = xarray.Dataset(interpolate_dataset_grid(
-            coordinates, _dataset, nearest_neighbour
-        ))
+        interpolated_data = interpolate_dataset_grid(
+            coordinates, _dataset, nearest_neighbour=nearest_neighbour
+        )
         for name in _moments:
             interpolated_data[name] = (
                 interpolated_data[name] / interpolated_data[NAME_E]
